@@ -259,6 +259,8 @@ func runC18(w *World) *Result {
 		}
 		r.Analysed[role+"_line_variants"] = len(b.Lines)
 		c18Backend(w, b, r)
+		// the helpers holding output and status are read back under the name they were written under
+		MangleRule(w, b, r, "R-C18-capture", "AppCall")
 	}
 	c18Driver(w, r)
 	return r
